@@ -81,6 +81,14 @@ func (c *nxCluster) poolLoop(h *nxHost) {
 			toSchedule = true
 		}
 	}
+	if h.pipe.stream {
+		h.pipe.stream = false
+		p.loadNodes()
+		if j, ok := p.getStreamJob(nxShard); ok {
+			p.pending = append(p.pending, j)
+			toSchedule = true
+		}
+	}
 	if h.poolCCI {
 		h.poolCCI = false
 		p.loadNodes()
@@ -100,6 +108,9 @@ func (c *nxCluster) poolRun(h *nxHost) {
 	case j := <-w.requestC:
 		if err := w.handle(j); err != nil {
 			c.fail("replica %d: snapshot job error %v", h.id, err)
+		}
+		if j.task.Stream {
+			c.streamEnded(h, j.task.ReplicaID)
 		}
 		p.completed(w.workerID)
 		p.loadNodes()
